@@ -408,6 +408,71 @@ def oracle(ctx, case, out):
             ctx.violation("close-again-not-noop", case, observed=v, expected="no-op", what="closing an already closed side changed something or raised")
 
 
+
+def real_transport_phase(ctx):
+    """the same endings over the REAL stream classes (the enumeration above replaces them by an in-memory stream): a PipeStream pair
+    and a SocketStream pair; the peer vanishes abruptly (its descriptors are closed under it, nothing is sent), with nothing buffered
+    or with a partial frame buffered. The surviving side must meet EOFError in serve(), be closed and clean, and its pending and
+    later requests must fail with EOFError - none may hang (every wait is bounded by a watchdog, not by a request timeout)."""
+    import os as _os, socket as _socket, struct as _struct
+    from rpyc.core.stream import PipeStream, SocketStream
+
+    def pipe_pair():
+        r1, w1 = _os.pipe(); r2, w2 = _os.pipe()
+        a = PipeStream(_os.fdopen(r1, "rb", 0), _os.fdopen(w2, "wb", 0))
+        return a, (lambda: (_os.close(w1), _os.close(r2))), (lambda data: _os.write(w1, data))
+
+    def sock_pair():
+        s1, s2 = _socket.socketpair()
+        return SocketStream(s1), (lambda: s2.close()), (lambda data: s2.sendall(data))
+    for kind, mk in (("pipe", pipe_pair), ("socket", sock_pair)):
+        for partial in (None, 3, 9):
+            case = {"real_transport": kind, "partial_frame_bytes": partial}
+            stream, kill_peer, feed = mk()
+            svc = Svc("A")
+            conn = Connection(svc, Channel(stream), config={})
+            ctx.case(("real", kind, partial), nontrivial=True, sample=case)
+            ctx.count("real-transport:" + kind)
+            try:
+                ar = conn.async_request(1, b"x")            # a pending request with no expiry (HANDLE_PING)
+                if partial:
+                    feed((_struct.pack("!LB", 40, 0) + b"y" * 40)[:partial])     # the peer dies in the middle of a frame
+                kill_peer()
+                outcome = None
+                try:
+                    with C.time_limit(20):
+                        try:
+                            conn.serve(1)
+                            outcome = "serve-returned"
+                            ar.wait()
+                            outcome = "wait-returned"
+                        except EOFError:
+                            outcome = "EOFError"
+                except C.Hang:
+                    outcome = "hang"
+                sn = snapshot(conn, svc)
+                if outcome != "EOFError":
+                    ctx.violation("peer-vanished-but-no-EOFError:%s:%s" % (kind, outcome), case, observed=outcome, expected="EOFError",
+                                  what="the peer's end of a real %s stream was closed abruptly; serving / waiting on the surviving side did not end with EOFError" % kind)
+                elif not clean(sn):
+                    ctx.violation("side-not-clean-after:peer-vanished:" + kind, case, observed=sn, expected="closed and clean", what="after meeting end-of-stream while serving the side is not closed and clean")
+                try:
+                    with C.time_limit(20):
+                        try:
+                            conn.sync_request(1, b"late")
+                            late = "value"
+                        except EOFError:
+                            late = "EOFError"
+                except C.Hang:
+                    late = "hang"
+                if late != "EOFError":
+                    ctx.violation("request-after-end:%s:%s" % (kind, late), case, observed=late, expected="EOFError", what="a request issued after the connection ended did not fail with EOFError")
+            finally:
+                try:
+                    conn.close()
+                except Exception:
+                    pass
+
 def run(ctx):
     model = C.Model("lifecycle"); model = model if model.available() else None
     facts = gen_facts()
@@ -476,6 +541,7 @@ def run(ctx):
                                   what="a request blocked waiting when the stream ended did not fail with EOFError")
     except ImportError:
         pass
+    real_transport_phase(ctx)
     ctx.coverage_extra["io_points_enumerated"] = total_points
     ctx.coverage_extra["exhaustive"] = "every transport call index of both sides; byte offsets inside a written packet are sampled (quick: 0,1,7,13)"
     if model and mcases:
@@ -491,6 +557,9 @@ def run(ctx):
 
 def replay(ctx, rep):
     cs = rep["case"]
+    if "real_transport" in cs:
+        real_transport_phase(ctx)
+        return
     if "threads" in cs:
         import random
         from harness import C13 as T
